@@ -8,7 +8,7 @@ ID = "C18"
 COQ_HEADER = "From Plotink Require Import Base.Prelude Corr.C18.\nOpen Scope Q_scope."
 COQ_RUN = "run18"
 COQ_CASE_TYPE = "case18"
-RULE = ("sequences of point_in_bounds calls on one bounds object changed in place between the calls; every ordering of v against {lo, hi, lo-tol, hi+tol} incl. equality and +-tiny, lo=hi, tol=0, plus random rationals, "
+RULE = ("float runs on decimals that are not binary fractions, values away from the thresholds (answers exact: a bound is returned as that very number); sequences of point_in_bounds calls on one bounds object changed in place between the calls; every ordering of v against {lo, hi, lo-tol, hi+tol} incl. equality and +-tiny, lo=hi, tol=0, plus random rationals, "
         "ints and floats (floats are converted exactly to rationals); non-trivial = value outside the closed range or within tol of a bound")
 TRUSTED = ["python Fraction/float comparison semantics = exact rational comparison (floats converted exactly)"]
 ASSUMPTIONS = ["lower <= upper, tolerance >= 0 (the property's domain); finite inputs"]
@@ -47,6 +47,24 @@ def generate(rng, tier):
         for _ in range(6):
             cases.append({"kind": "pib", "x": rng.choice(xs), "y": rng.choice(ys), "xmin": lo, "ymin": ylo,
                           "xmax": hi, "ymax": yhi, "tol": tol, "family": "point_in_bounds"})
+    # floats that are not neat binary fractions (0.3, 11.81, 8.58 ...), values well away from the flagging thresholds: the helpers select
+    # among their arguments, so the answers are exact even in floating point (a bound is returned as that very number)
+    DEC = [0.0, 0.1, 0.3, 0.5, 1.5, 8.58, 11.81, 7.3, 299.99, -0.2, -3.7, 1e-3, 430.1]
+    for _ in range(max(20, n // 3)):
+        a, b = rng.choice(DEC), rng.choice(DEC); lo, hi = min(a, b), max(a, b)
+        tol = rng.choice([0.01, 0.0, 1e-9, 0.25])
+        far = rng.choice([0.8, 1.1, 30.0, 300.1, 1e17, 12345.678])
+        vs = [lo - far, hi + far, lo - tol - far / 7, hi + tol + far / 3] + ([lo + (hi - lo) * rng.choice([0.25, 0.5, 0.731])] if hi - lo > 4 * tol + 1e-3 else [])
+        for v in vs:
+            if min(abs(v - (lo - tol)), abs(v - (hi + tol)), abs(v - lo), abs(v - hi)) < 1e-6 * (1 + abs(v)): continue
+            kind = rng.choice(["check", "tol", "con"])
+            c = {"kind": kind, "v": F(v), "lo": F(lo), "hi": F(hi), "float": True, "family": "float/" + kind}
+            if kind == "tol": c["tol"] = F(tol)
+            cases.append(c)
+        ylo, yhi = sorted([rng.choice(DEC), rng.choice(DEC)])
+        x = rng.choice(vs); y = rng.choice([ylo - far, yhi + far, (ylo + yhi) / 2])
+        if min(abs(y - (ylo - tol)), abs(y - (yhi + tol))) > 1e-6 * (1 + abs(y)) and min(abs(x - (lo - tol)), abs(x - (hi + tol))) > 1e-6 * (1 + abs(x)):
+            cases.append({"kind": "pib", "x": F(x), "y": F(y), "xmin": F(lo), "ymin": F(ylo), "xmax": F(hi), "ymax": F(yhi), "tol": F(tol), "float": True, "family": "float/point_in_bounds"})
     # the same bounds object handed to point_in_bounds again after the caller changed it in place (a plotter's travel limits are
     # edited between layers): the answer must follow the contents, not the object
     for _ in range(max(10, n // 5)):
@@ -68,6 +86,8 @@ def _conv(x, mode):
 
 def run_impl(c):
     k = c["kind"]
+    if c.get("float"):
+        c = {key: (float(v) if isinstance(v, F) else v) for key, v in c.items()}
     if k == "check":
         r, f = plot_utils.checkLimits(c["v"], c["lo"], c["hi"]); return {"r": F(r), "f": bool(f)}
     if k == "tol":
